@@ -4,10 +4,12 @@ import (
 	"bytes"
 	"encoding/json"
 	"fmt"
+	"os"
 	"strings"
 	"unicode/utf8"
 
 	zlint "github.com/zmap/zlint/v3"
+	"github.com/zmap/zlint/v3/formattedoutput"
 	"github.com/zmap/zlint/v3/lint"
 
 	"verif/mon"
@@ -135,8 +137,39 @@ var c14Labels = map[lint.LintStatus]string{
 	lint.Reserved: "reserved", lint.NA: "NA", lint.NE: "NE", lint.Pass: "pass", lint.Notice: "info", lint.Warn: "warn", lint.Error: "error", lint.Fatal: "fatal",
 }
 
+// c14Churn exercises the other public operations that read the status / label tables (the summary tables of
+// formattedoutput in both forms, the registry listing, String()) - "stable" labels must survive them.
+func c14Churn(rs *zlint.ResultSet) {
+	old := os.Stdout
+	if null, err := os.OpenFile(os.DevNull, os.O_WRONLY, 0); err == nil {
+		os.Stdout = null
+		formattedoutput.OutputSummary(rs, false)
+		formattedoutput.OutputSummary(rs, true)
+		os.Stdout = old
+		null.Close()
+	}
+	var buf bytes.Buffer
+	lint.GlobalRegistry().WriteJSON(&buf)
+	for st := lint.Reserved; st <= lint.Fatal+1; st++ {
+		_ = st.String()
+	}
+}
+
 func c14Once(c *mon.Ctx) {
-	// (b) labels
+	seen := c14LabelTable(c, "at start")
+	if o := W.Objs[0]; o != nil {
+		if rs, pv, _ := o.Lint(lint.GlobalRegistry()); pv == nil && rs != nil {
+			c14Churn(rs)
+			c14Churn(&zlint.ResultSet{Results: map[string]*lint.LintResult{}})
+			c14LabelTable(c, "after summary tables and listing were produced")
+			c.R.Count("label_table_passes_after_churn", 1)
+		}
+	}
+	c14OnceRest(c, seen)
+}
+
+// (b) labels
+func c14LabelTable(c *mon.Ctx, when string) map[string]lint.LintStatus {
 	seen := map[string]lint.LintStatus{}
 	for st := lint.Reserved; st <= lint.Fatal; st++ {
 		b, err := json.Marshal(st)
@@ -156,9 +189,13 @@ func c14Once(c *mon.Ctx) {
 		seen[lbl] = st
 		var back lint.LintStatus = 99
 		if err := json.Unmarshal(b, &back); err != nil || back != st {
-			c.V(fmt.Sprintf("label-decode|%d", int(st)), fmt.Sprintf("label %s decodes as %d (%v), want %d", b, int(back), err, int(st)), "", nil, nil)
+			c.V(fmt.Sprintf("label-decode|%d", int(st)), fmt.Sprintf("label %s decodes as %d (%v), want %d (%s)", b, int(back), err, int(st), when), "", nil, nil)
 		}
 	}
+	return seen
+}
+
+func c14OnceRest(c *mon.Ctx, seen map[string]lint.LintStatus) {
 	bad := []string{`"PASS"`, `"Pass"`, `"na"`, `"ne"`, `"Error"`, `"ERROR"`, `"warning"`, `"notice"`, `"Notice"`, `"fail"`, `"ok"`, `""`, `" pass"`, `"pass "`, `"pass\n"`, `3`, `0`, `7`, `-1`, `3.0`, `true`, `false`, `[]`, `{}`, `["pass"]`, `{"result":"pass"}`, `"reserved "`, `"n/a"`, `"N/A"`, `"inf"`, `"information"`, `"fatal!"`, `"passpass"`, `"p"`}
 	rng := c.Rng(-14, 0)
 	for i := 0; i < c.Pick(200, 5000); i++ {
@@ -324,6 +361,10 @@ func init() {
 			if pv != nil || rs == nil {
 				return
 			}
+			if i%64 == 0 { // the summary tables and the listing are produced from time to time, as a long-lived caller would
+				c14Churn(rs)
+				c.R.Count("api_churn_rounds", 1)
+			}
 			before := c.R.Counters["details_with_invalid_utf8"] + c.R.Counters["details_with_special_chars"]
 			c14RoundTrip(c, rs, o.Name+"~"+desc, inputs(o))
 			if c.R.Counters["details_with_invalid_utf8"]+c.R.Counters["details_with_special_chars"] > before {
@@ -342,6 +383,10 @@ func init() {
 			ev.Coverage["listing_lints_decoded"] = r.SetSize("listing_lints")
 			if r.Counters["listing_passes"] < 5 {
 				gates = append(gates, "the additions scenario (own process) did not complete")
+			}
+			ev.Coverage["api_churn_rounds"] = r.Counters["api_churn_rounds"]
+			if r.Counters["api_churn_rounds"] < 50 || r.Counters["label_table_passes_after_churn"] < 1 {
+				gates = append(gates, "summary tables / listing were not interleaved with the round trips often enough")
 			}
 			if r.SetSize("synthetic_statuses") < 8 {
 				gates = append(gates, "synthetic result sets did not cover all eight statuses")
